@@ -195,7 +195,7 @@ def main(argv=None):
         else:
             new.append(w)
     sha = tree_sha(repo)
-    replay_dir = os.path.join(VERIF_ROOT, 'replays', prop)
+    replay_dir = os.path.join(os.environ.get('VMON_REPLAY_DIR') or os.path.join(VERIF_ROOT, 'replays'), prop)
     lines = []
     for w in new:
         os.makedirs(replay_dir, exist_ok=True)
